@@ -13,6 +13,8 @@ claimed = {
          "encoding/asn1 leaf encoders are executed, not proved canonical; independent-parser acceptance and re-encoding stability are outside the claim"),
  "C03": ("5/C03", "Subject strings with symbolic value bytes run through the real ParseRDNSequence (incl. the interpreted regexp), optional profile validation and BuildCertBody; RDN count/order/type/value, serial and unique ids are asserted; freshness of the random serial is an existential solver query.",
          "skeleton-structured subjects (separator characters fixed by construction), values of 2-3 bytes"),
+ "C04": ("5/C04", "The real toTimeStruct with the real time.ParseInLocation / Date / AddDate code is executed with the day of month, the zone offset and the time of the run as solver variables (year and month concretised by forking) against an independent civil-calendar oracle; DER time type and the merge rule for validity are checked separately.",
+         "fixed-offset local zone instead of the tz database; divisions by constants lowered by interval analysis; durations with listed year/month counts"),
  "C05": ("5/C05", "Exhaustive symbolic run over the 15 x 9 keyAlgorithm x signatureAlgorithm configurations against RFC reference tables.",
          "key generation stubs record the curve / size they were asked for"),
  "C06": ("5/C06", "The real pipeline behind the YAML front end (initCertificate, parseExtensions, commonExtensionHandler via emulated reflection, readRawString with the real base64 code, BuildCertBody, Sign) is executed with raw payload bytes and critical flags symbolic; order, OID, flag and value of every emitted extension are asserted.",
@@ -21,6 +23,8 @@ claimed = {
          "content strings of 2 bytes, short lists; hashed key identifiers are part of the C01 harness; the pathLen=0 defect is a recorded known finding"),
  "C16": ("5/C16", "The admission encoder (raw TLV assembly plus emulated reflection in partialMarshallStruct) is executed level by level for every subset of optional members and every GeneralName kind, and through the v1 configuration layer, against a reference AdmissionSyntax encoder written from Common PKI v2.0.",
          "compositional coverage of the tree, 2-byte ASCII strings"),
+ "C13": ("5/C13", "Self-composition on CertificateContent.HashSum: two symbolic configurations that differ only in alias / profile name / run-relative instants must hash equal, and each of 24 single edits that change the generated certificate must change the hash; SHA-1 is an uninterpreted collision-free function of the JSON text produced by the json.Marshal model. The stored hash line round trip runs through the real export/import code.",
+         "JSON model (cross-checked on concrete calls); two recorded known findings (relative validity edits, extension kinds with identical field layout)"),
  "C14": ("5/C14", "One regeneration step through the real GenerateArtifacts for an entity holding a key of any drawn type, a request without key, or nothing; key identity, SPKI, number of key generations and the verification of a child issued afterwards are asserted. Any number of regenerations follows by induction over the stored artifact.",
          "ideal crypto; key-generation counter of the engine; PEM persistence is C17's subject"),
  "C17": ("5/C17", "PKCS#8 write/read of EC keys is executed for all ten curves with the private scalar as a solver variable (1 <= d < N); PEM files with every block combination are written and read back with the real encoding/pem code interpreted.",
